@@ -1220,7 +1220,7 @@ fn check_split_points(split_points: &[f64]) {
     if len == 1 && split_points[0].is_nan() {
         panic!("split_points must not contain NaN values: {split_points:?}");
     }
-    for i in 0..len - 1 {
+    for i in 0..len.saturating_sub(1) {
         if split_points[i] < split_points[i + 1] {
             // we must use this positive condition because NaN comparisons are always false
             continue;
